@@ -7,6 +7,7 @@ from .common import PoolMixFamily
 def _posts(res):
     oracles.token_oracle(res, "C01")
     oracles.exchange_order_oracle(res, "C01")
+    oracles.decoded_request_oracle(res, "C01")
 
 
 FAMS = [
@@ -21,6 +22,59 @@ FAMS = [
     PoolMixFamily("C01", "poolmix-threads-faulty", 400, 10000,
                   {"exec": "threads", "faulty": True, "max_callers": 4, "protos": ["h1"]}, [], [_posts]),
 ]
+
+def _late():
+    # every cancellation point of one caller on a shared HTTP/2 connection (sweep engine
+    # of C05), followed by further requests of its companions on the same connection:
+    # what the server decodes and answers afterwards must still be each caller's own
+    import copy
+
+    from .. import gen
+    from .c05 import CTYPES, SweepFamily, base_scenario
+
+    class SharedSweep(SweepFamily):
+        def make_base(self, bseed, bi):
+            ct = ["h2tls", "h2pk", "tun_h2", "socks_auth_h2"][bi % 4]
+            b = base_scenario(bseed, 22 + CTYPES.index(ct), self.ex)     # company "shared"
+            r = gen.mk_rng(bseed, "c01shared")
+            for cfg in b["net"]["endpoints"].values():
+                if "h2" in cfg:
+                    cfg["h2"]["settings"]["max_concurrent_streams"] = 100
+            for ci, c in enumerate(b["callers"]):
+                for op in c["ops"]:
+                    op["headers"] = [["x-sel", r.choice(["s0", "s1"])], ["X-Grp", "g0"]]
+                if ci > 0:
+                    first = c["ops"][0]
+                    for k in (1, 2):
+                        op = copy.deepcopy(first)
+                        op["token"] = first["token"] + "abc"[k]
+                        op["url"] = first["url"].rsplit("/", 1)[0] + "/" + op["token"]
+                        op["resp"] = gen.gen_resp_plan(r, op["token"].encode(), op["method"],
+                                                       {"body_len": 30, "p_interim": 0.0,
+                                                        "p_conn_close": 0.0, "p_http10": 0.0,
+                                                        "framings": ["cl"]})
+                        op["headers"] = [["x-sel", r.choice(["s0", "s1"])], ["X-Grp", "g0"]]
+                        c["ops"] += [{"op": "sleep", "d": r.choice([0.02, 0.05])}, op]
+            b["epilogue"] = ["settle", "close_pool"]
+            b.pop("probe_reuse", None)
+            return b
+
+        def observers(self, scn):
+            return []
+
+        def run_scenario(self, scn):
+            from ..scenario import run_scenario
+
+            res = run_scenario(scn, [])
+            if not res.error:
+                _posts(res)
+            res.violations = list(res.world.violations)
+            return res
+
+    FAMS.append(SharedSweep("C01", "shared-h2-cancel-sweep", 12, 120, kinds=("scope",), faults=False))
+
+
+_late()
 
 register("C01", {
     "level": "exploration",
